@@ -54,7 +54,8 @@ SITES = {
               ("cam_decentering", "farr", "a.c0.dec", ((2,), 64, 0)), ("cam_thin_prism", "farr", "a.c1.thin", ((2,), 64, 1)),
               ("cam_viewport", "iarr", "a.c1.vs", (2, "i32", 0)), ("model", "sh", "model", 2)],
     "calib_bts": [("cam_rotation", "farr", "a.c0.rot", ((3, 3), 64, 4)), ("cam_focus", "farr", "a.c0.foc", ((2,), 64, 0)), ("cam_xcoef", "farr", "a.c0.xd", ((70,), 64, 69)),
-                  ("cam_ycoef", "farr", "a.c0.yd", ((70,), 64, 0)), ("cam_viewport", "iarr", "a.c0.vo", (2, "i32", 1)), ("map", "iarr", "a.map", (1, "i16", 0))],
+                  ("cam_ycoef", "farr", "a.c0.yd", ((70,), 64, 0)), ("cam_viewport", "iarr", "a.c0.vo", (2, "i32", 1)), ("map", "iarr", "a.map", (1, "i16", 0)),
+                  ("cam_translation", "farr", "a.c0.tr", ((3,), 64, 2)), ("cam_center", "farr", "a.c0.oc", ((2,), 64, 0)), ("cam_viewport_size", "iarr", "a.c0.vs", (2, "i32", 0))],
     "optical": [("index", "ibv", "a.ch1.idx", "i32"), ("lens", "label", "a.ch1.lens", 1), ("type", "label", "a.ch0.type", 0, 1), ("name", "label", "a.ch1.name", 2),
                 ("viewport", "iarr", "a.ch1.vo", (2, "i32", 1))],
     "events": [("start_time", "f32", "a.st", None), ("label", "label", "a.label1", 1), ("value", "farr", "a.e1", ((2,), 32, 1)),
